@@ -192,9 +192,14 @@ def sumTo (f : Nat → Rat) : Nat → Rat
   | 0 => 0
   | k + 1 => sumTo f k + f k
 
-theorem cell_size_eq_bdry_diff (P : Part1) (hn : 2 ≤ P.n) (i : Nat) (hi : i < P.n) :
+theorem cell_size_eq_bdry_diff (P : Part1) (hn : 1 ≤ P.n) (i : Nat) (hi : i < P.n) :
     P.cellSize i = P.bdry (i + 1) - P.bdry i := by
   unfold Part1.cellSize
+  rcases Nat.lt_or_ge P.n 2 with h1 | h2
+  · have e : P.n = 1 := by omega
+    have e0 : i = 0 := by omega
+    subst e0
+    rw [if_pos e, bdry_zero P hn, bdry_ge P (0 + 1) (by omega)]
   rw [if_neg (by omega)]
   rcases Nat.lt_or_ge (i + 1) P.n with h | h
   · rw [if_neg (by omega), bdry_succ_mid P i h]
@@ -207,22 +212,22 @@ theorem cell_size_eq_bdry_diff (P : Part1) (hn : 2 ≤ P.n) (i : Nat) (hi : i < 
     have e2 : P.n - 2 = i - 1 := by omega
     rw [e1, e2]; ring
 
-theorem sum_cells_upto (P : Part1) (hn : 2 ≤ P.n) (m : Nat) (hm : m ≤ P.n) :
+theorem sum_cells_upto (P : Part1) (hn : 1 ≤ P.n) (m : Nat) (hm : m ≤ P.n) :
     sumTo P.cellSize m = P.bdry m - P.lo := by
   induction m with
   | zero => simp [sumTo, bdry_zero P (by omega)]
   | succ m ih =>
     rw [sumTo, ih (by omega), cell_size_eq_bdry_diff P hn m (by omega)]; ring
 
-theorem cell_sizes_sum_of_two_le (P : Part1) (hn : 2 ≤ P.n) :
+theorem cell_sizes_sum_all (P : Part1) (hn : 1 ≤ P.n) :
     sumTo P.cellSize P.n = P.hi - P.lo := by
   rw [sum_cells_upto P hn P.n (le_refl _), bdry_last]
 
-theorem cell_sizes_sum_fails_len1 :
-    ∃ P : Part1, Valid P ∧ P.n = 1 ∧ sumTo P.cellSize P.n ≠ P.hi - P.lo := by
+theorem cell_sizes_old_sum_fails_len1 :
+    ∃ P : Part1, Valid P ∧ P.n = 1 ∧ sumTo P.cellSizeOld P.n ≠ P.hi - P.lo := by
   refine ⟨⟨1, fun _ => 1 / 2, 0, 1⟩, ⟨by decide, ?_, by norm_num, by norm_num⟩, rfl, ?_⟩
   · intro i hi; simp at hi
-  · simp [sumTo, Part1.cellSize]
+  · simp [sumTo, Part1.cellSizeOld]
 
 theorem searchFrom_spec (f : Nat → Rat) (v : Rat) (fuel k : Nat) :
     k ≤ searchFrom f v fuel k ∧ searchFrom f v fuel k ≤ k + fuel ∧
